@@ -65,6 +65,10 @@ type target struct {
 	// the fragment is the definition of ITS generated file (imported), one outside the fragment is taken by the
 	// hand-written model (modelCalls)
 	structs map[string]string // "importpath.Name" of a struct type without a model counterpart -> Lean structure to declare
+	props   string            // the tie module (relative to lean/): a translated function without a `when_translated Gen.X in`
+	// guard there, and that no guarded function calls, is written to <out>_untied.lean, which no property imports
+	only    string            // translate only the functions of this source file
+	ext     bool              // extended fragment: loops (loops.go), strings, word slices, run-time panics as `none`
 }
 
 // rules of the package a function belongs to (an auxiliary package keeps the rules of its own target)
@@ -84,6 +88,8 @@ const fixedPath = "github.com/richardwilkes/toolbox/xmath/fixed"
 const f64Path = "github.com/richardwilkes/toolbox/xmath/fixed/f64"
 const f128Path = "github.com/richardwilkes/toolbox/xmath/fixed/f128"
 const geomPath = "github.com/richardwilkes/toolbox/xmath/geom"
+const txtPath = "github.com/richardwilkes/toolbox/txt"
+const xmathPath = "github.com/richardwilkes/toolbox/xmath"
 
 // need: the type-class instances on the abstract coordinate type α that the function being translated uses
 var needHook = func(string) {}
@@ -117,6 +123,13 @@ var targets = map[string]*target{
 		structs: map[string]string{geomPath + ".Point": "Geom_Point", geomPath + ".Size": "Geom_Size", geomPath + ".Rect": "Geom_Rect",
 			geomPath + ".Insets": "Geom_Insets", geomPath + ".Matrix": "Geom_Matrix"},
 		imports: []string{"Lemmas.GenAttr"}, what: "package xmath/geom", check: "C18"},
+	"txt": {name: "txt", pkgs: []string{txtPath}, prefix: map[string]string{txtPath: ""}, display: map[string]string{txtPath: ""},
+		ext: true, imports: []string{"Lemmas.GenAttr", "Lemmas.GenLoop"}, what: "package txt", check: "C20", props: "Props/C20Gen.lean"},
+	"bitset": {name: "bitset", pkgs: []string{xmathPath}, prefix: map[string]string{xmathPath: ""}, display: map[string]string{xmathPath: ""},
+		ext: true, imports: []string{"Lemmas.GenAttr", "Lemmas.GenLoop"}, what: "package xmath (bitset.go)", check: "C08", props: "Props/C08Gen.lean",
+		structs: map[string]string{xmathPath + ".BitSet": "BitSet_"}, only: "bitset.go"},
+	"numloops": {name: "numloops", pkgs: []string{pkgPath}, prefix: map[string]string{pkgPath: ""}, display: map[string]string{pkgPath: ""},
+		bits: true, ext: true, imports: []string{"Model.U128", "Model.I128", "Lemmas.GenAttr", "Lemmas.GenLoop"}, what: "package xmath/num (with loops)", check: "C01", props: "Props/C01GenLoops.lean"},
 }
 
 var cur = targets["num"]
@@ -155,6 +168,10 @@ const (
 	kTuple
 	kPtr
 	kTPZero // the zero value of a type parameter (only method calls through the dictionary are possible)
+	kStr    // a Go string: `Gen.Str` = List (BitVec 8)
+	kSlice  // a []uint64: `Gen.Words` = List (BitVec 64)
+	kRefF   // the address of a field of a record that is only read (fields[0] the value)
+	kElem   // the address of an element of a slice value (fields[0] the slice, fields[1] the index)
 )
 
 // val is the symbolic value of an SSA register on one path.
@@ -174,6 +191,10 @@ type val struct {
 	tp *types.TypeParam
 	// kInt: a value of the abstract numeric type α (not a machine word)
 	num bool
+	// the term is an `Option` (a partial operation, a loop, a call of a function with loops): bound with `.bind`
+	opt bool
+	// kStruct: the value stands for a POINTER to the record (a receiver that is only read)
+	ref bool
 }
 
 func par(v val) string {
@@ -242,6 +263,9 @@ func structInfo(t types.Type) (lean string, st *types.Struct, ok bool) {
 		if _, _, isI := intInfo(ft); isI {
 			continue
 		}
+		if isWords(ft) || isStr(ft) {
+			continue
+		}
 		if fl, _, isSt := structInfo(ft); isSt {
 			if strings.HasSuffix(fl, " α") {
 				generic = true
@@ -256,9 +280,44 @@ func structInfo(t types.Type) (lean string, st *types.Struct, ok bool) {
 	return l, s, true
 }
 
+func isStr(t types.Type) bool {
+	b, ok := t.Underlying().(*types.Basic)
+	return ok && b.Info()&types.IsString != 0 && cur.ext
+}
+
+func isWords(t types.Type) bool {
+	s, ok := t.Underlying().(*types.Slice)
+	if !ok || !cur.ext {
+		return false
+	}
+	b, isB := s.Elem().Underlying().(*types.Basic)
+	return isB && b.Kind() == types.Uint64
+}
+
+// refStruct: a pointer to a struct of the fragment (a method receiver that is only read: passed as the record)
+func refStruct(t types.Type) (types.Type, bool) {
+	p, ok := types.Unalias(t).Underlying().(*types.Pointer)
+	if !ok || !cur.ext {
+		return nil, false
+	}
+	if _, _, isS := structInfo(p.Elem()); isS {
+		return p.Elem(), true
+	}
+	return nil, false
+}
+
 func leanType(t types.Type) string {
 	if w, _, ok := intInfo(t); ok {
 		return fmt.Sprintf("BitVec %d", w)
+	}
+	if isStr(t) {
+		return "Gen.Str"
+	}
+	if isWords(t) {
+		return "Gen.Words"
+	}
+	if el, ok := refStruct(t); ok {
+		return leanType(el)
 	}
 	if isBool(t) {
 		return "Bool"
@@ -307,6 +366,13 @@ func zeroOf(t types.Type) val {
 	}
 	if isBool(t) {
 		return val{k: kBool, e: "false", atom: true}
+	}
+	if isStr(t) || isWords(t) {
+		k := kStr
+		if isWords(t) {
+			k = kSlice
+		}
+		return val{k: k, e: "[]", atom: true}
 	}
 	if l, st, ok := structInfo(t); ok {
 		v := val{k: kStruct, lean: l}
@@ -363,6 +429,8 @@ func namedStruct(name string, t types.Type) val {
 		fn := name + "." + leanFieldName(t, i)
 		if _, _, isSt := structInfo(st.Field(i).Type()); isSt {
 			v.fields = append(v.fields, namedStruct(fn, st.Field(i).Type()))
+		} else if isWords(st.Field(i).Type()) || isStr(st.Field(i).Type()) {
+			v.fields = append(v.fields, namedOfType(fn, st.Field(i).Type()))
 		} else {
 			v.fields = append(v.fields, val{k: kInt, e: fn, atom: true, num: isNumTP(st.Field(i).Type())})
 		}
@@ -386,7 +454,16 @@ func namedOfType(name string, t types.Type) val {
 	switch {
 	case isBool(t):
 		return val{k: kBool, e: name, atom: true}
+	case isStr(t):
+		return val{k: kStr, e: name, atom: true}
+	case isWords(t):
+		return val{k: kSlice, e: name, atom: true}
 	default:
+		if el, ok := refStruct(t); ok {
+			v := namedStruct(name, el)
+			v.ref = true
+			return v
+		}
 		if isNumTP(t) {
 			return val{k: kInt, num: true, e: name, atom: true}
 		}
@@ -434,6 +511,9 @@ type gen struct {
 	globals    map[*ssa.Global]*global
 	gorder     []*ssa.Global
 	gbad       map[*ssa.Global]string
+	callees    map[*ssa.Function][]*ssa.Function
+	fueledFn   map[*ssa.Function]bool
+	monadicFn  map[*ssa.Function]bool
 }
 
 var leanReserved = map[string]bool{"from": true, "at": true, "end": true, "fun": true, "let": true, "in": true, "do": true,
@@ -461,6 +541,9 @@ func (g *gen) collect(sp *ssa.Package) {
 	var found []*ssa.Function
 	add := func(f *ssa.Function, disp, lean string) {
 		if f == nil || f.Synthetic != "" || f.Blocks == nil {
+			return
+		}
+		if cur.only != "" && filepath.Base(g.prog.Fset.Position(f.Pos()).Filename) != cur.only && !g.aux[sp] {
 			return
 		}
 		found = append(found, f)
@@ -537,6 +620,15 @@ type fnTrans struct {
 	partial  []string
 	abstract int             // number of abstract numeric type parameters (0 or 1)
 	need     map[string]bool // instances on α
+	// extended fragment (loops.go)
+	loops   map[*ssa.BasicBlock]*loopInfo
+	inner   map[*ssa.BasicBlock]*loopInfo
+	rg      *region
+	monadic bool // the result is an `Option`
+	fueled  bool // the definition takes `fuel`
+	selfRec bool
+	defs    []string // the loop functions, in the order they are completed
+	resT    string
 }
 
 // dictionary builds the Lean parameters that stand for the type parameters of f
@@ -662,15 +754,18 @@ func (t *fnTrans) run() string {
 	if sig.Variadic() {
 		fail("variadic")
 	}
-	if sig.Results().Len() == 0 {
+	if sig.Results().Len() == 0 && !cur.ext {
 		fail("no result (effect only)")
 	}
 	var resT string
-	if sig.Results().Len() == 1 {
+	if sig.Results().Len() == 0 {
+		resT = "Unit" // a check that may end the process (translated only when it turns out to be partial, see below)
+	} else if sig.Results().Len() == 1 {
 		resT = leanType(sig.Results().At(0).Type())
 	} else {
 		resT = leanType(sig.Results())
 	}
+	t.resT = resT
 	e := &env{vals: map[ssa.Value]val{}, mem: map[*ssa.Alloc]val{}}
 	t.need = map[string]bool{}
 	saved := needHook
@@ -678,6 +773,9 @@ func (t *fnTrans) run() string {
 	defer func() { needHook = saved }()
 	params := t.dictionary()
 	used := map[string]bool{}
+	if cur.ext {
+		used["fuel"] = true
+	}
 	for _, p := range params {
 		used[strings.TrimPrefix(strings.Fields(p)[0], "(")] = true
 	}
@@ -694,16 +792,50 @@ func (t *fnTrans) run() string {
 	if len(f.FreeVars) > 0 {
 		fail("closure")
 	}
-	t.checkDAG()
-	for _, b := range f.Blocks {
-		for _, ins := range b.Instrs {
-			if _, isPanic := ins.(*ssa.Panic); isPanic {
-				fail("panic")
+	if cur.ext {
+		t.analyzeLoops()
+	} else {
+		t.checkDAG()
+	}
+	if !cur.ext {
+		for _, b := range f.Blocks {
+			for _, ins := range b.Instrs {
+				if _, isPanic := ins.(*ssa.Panic); isPanic {
+					fail("panic")
+				}
 			}
 		}
 	}
-	t.postDominators()
-	body := tidy(render(t.walk(f.Blocks[0], -1, e, nil, false), 1))
+	if len(t.loops) > 0 {
+		t.rg = &region{}
+		t.regionPostDominators(t.rg, f.Blocks[0])
+	} else {
+		t.postDominators()
+		t.rg = &region{ipdom: t.ipdom}
+	}
+	root := t.walk(f.Blocks[0], -1, e, nil, false)
+	if sig.Results().Len() == 0 && !t.monadic {
+		fail("no result (effect only)")
+	}
+	if t.monadic {
+		wrapRets(root)
+		resT = "Option (" + resT + ")"
+	}
+	depth := 1
+	if t.selfRec {
+		depth = 2
+	}
+	body := tidy(render(root, depth))
+	if t.selfRec {
+		body = "  match fuel with\n  | 0 => none\n  | fuel + 1 =>\n" + body
+	}
+	if t.fueled {
+		params = append(params, "(fuel : Nat)")
+		t.g.fueledFn[f] = true
+	}
+	if t.monadic {
+		t.g.monadicFn[f] = true
+	}
 	if t.abstract > 0 {
 		// the abstract coordinate type and the instances the body (and its callees) use
 		for _, m := range regexp.MustCompile(`\((\d+) : α\)`).FindAllStringSubmatch(body, -1) {
@@ -737,7 +869,31 @@ func (t *fnTrans) run() string {
 	if len(cur.aux) > 0 {
 		attr = "gen_def, gen_local" // see Lemmas/GenAttr.lean
 	}
-	return fmt.Sprintf("@[%s] def %s %s : %s :=\n%s\n", attr, t.g.lname[f], strings.Join(params, " "), resT, body)
+	if t.monadic {
+		attr = "gen_part" // partial (fuel / panics): unfolded by hand in the tie proofs
+	}
+	return strings.Join(t.defs, "\n") + sep(t.defs) + fmt.Sprintf("/-- `%s` (%s) -/\n@[%s] def %s %s : %s :=\n%s\n", t.g.names[f],
+		filepath.Base(t.g.prog.Fset.Position(f.Pos()).Filename), attr, t.g.lname[f], strings.Join(params, " "), resT, body)
+}
+
+func sep(defs []string) string {
+	if len(defs) > 0 {
+		return "\n"
+	}
+	return ""
+}
+
+// wrapRets: the function turned out to be partial, its returns are `some …`
+func wrapRets(n *node) {
+	if n.th != nil {
+		wrapRets(n.th)
+		wrapRets(n.el)
+		return
+	}
+	if n.isRet {
+		n.ret = "some " + parenIf(n.ret)
+		n.isRet = false
+	}
 }
 
 func ind(n int) string { return strings.Repeat("  ", n) }
@@ -810,6 +966,17 @@ func (t *fnTrans) get(x ssa.Value, e *env) val {
 			}
 			return lit(bi, w)
 		}
+		if isStr(c.Type()) && c.Value.Kind() == constant.String {
+			bs := []byte(constant.StringVal(c.Value))
+			if len(bs) > 64 {
+				fail("long string constant")
+			}
+			parts := make([]string, len(bs))
+			for k, b := range bs {
+				parts[k] = fmt.Sprintf("%d#8", b)
+			}
+			return val{k: kStr, e: "([" + strings.Join(parts, ", ") + "] : Gen.Str)", atom: true}
+		}
 		if isBool(c.Type()) {
 			if constant.BoolVal(c.Value) {
 				return val{k: kBool, e: "true", atom: true, prop: "True"}
@@ -831,6 +998,7 @@ func (t *fnTrans) get(x ssa.Value, e *env) val {
 type node struct {
 	lines  []string
 	ret    string   // result expression (the function returns here)
+	isRet  bool     // ret is the value of a `return` at the top level (wrapped in `some` when the function is partial)
 	arrive *arrival // the region's join block is reached
 	cond   string
 	th, el *node
@@ -839,6 +1007,7 @@ type node struct {
 type arrival struct {
 	e    *env
 	pred int // predecessor slot of the join block
+	over map[*ssa.Phi]val
 }
 
 // walk executes block b symbolically (entered through predecessor slot predIdx; phisBound: the phis are already in e)
@@ -857,8 +1026,28 @@ func (t *fnTrans) walk(b *ssa.BasicBlock, predIdx int, e *env, stop *ssa.BasicBl
 	finish := func(rest *node) *node {
 		flush()
 		n.lines = append(n.lines, rest.lines...)
-		n.ret, n.arrive, n.cond, n.th, n.el = rest.ret, rest.arrive, rest.cond, rest.th, rest.el
+		n.ret, n.isRet, n.arrive, n.cond, n.th, n.el = rest.ret, rest.isRet, rest.arrive, rest.cond, rest.th, rest.el
 		return n
+	}
+	if cur.ext {
+		for _, ins := range b.Instrs {
+			if noReturn(ins) {
+				// the Go function does not return from here (panic, exit): no result
+				t.monadic = true
+				n.ret = "none"
+				return n
+			}
+		}
+	}
+	bindOpt := func(instr ssa.Value, expr string) {
+		t.monadic = true
+		name := instr.Name()
+		if tup, isT := instr.Type().(*types.Tuple); isT && tup.Len() == 0 {
+			fmt.Fprintf(&out, "(%s).bind fun _ =>\n", expr)
+			return
+		}
+		fmt.Fprintf(&out, "(%s).bind fun %s =>\n", expr, name)
+		e.vals[instr] = namedOfType(name, instr.Type())
 	}
 	for _, ins := range b.Instrs {
 		switch i := ins.(type) {
@@ -878,8 +1067,59 @@ func (t *fnTrans) walk(b *ssa.BasicBlock, predIdx int, e *env, stop *ssa.BasicBl
 			elem := i.Type().Underlying().(*types.Pointer).Elem()
 			e.mem[i] = zeroOf(elem)
 			e.vals[i] = val{k: kPtr, alloc: i, fidx: -1}
+		case *ssa.Lookup:
+			x, idx := t.get(i.X, e), t.get(i.Index, e)
+			if x.k != kStr || i.CommaOk || idx.k != kInt {
+				fail("lookup in %s", i.X.Type().String())
+			}
+			if w, _, _ := intInfo(i.Index.Type()); w != 64 {
+				fail("string index of type %s", i.Index.Type().String())
+			}
+			bindOpt(i, "Gen.strIdx "+par(x)+" "+par(idx))
+		case *ssa.Index:
+			x, idx := t.get(i.X, e), t.get(i.Index, e)
+			if x.k != kStr || idx.k != kInt {
+				fail("index in %s", i.X.Type().String())
+			}
+			if w, _, _ := intInfo(i.Index.Type()); w != 64 {
+				fail("string index of type %s", i.Index.Type().String())
+			}
+			bindOpt(i, "Gen.strIdx "+par(x)+" "+par(idx))
+		case *ssa.Slice:
+			x := t.get(i.X, e)
+			if x.k != kStr && x.k != kSlice {
+				fail("slice of %s", i.X.Type().String())
+			}
+			if i.Max != nil {
+				fail("three-index slice")
+			}
+			fn, ln := "Gen.strSlice", "Gen.strLen"
+			if x.k == kSlice {
+				fn, ln = "Gen.wSlice", "Gen.wLen"
+			}
+			lo, hi := "0#64", "("+ln+" "+par(x)+")"
+			if i.Low != nil {
+				lo = par(t.get(i.Low, e))
+			}
+			if i.High != nil {
+				hi = par(t.get(i.High, e))
+			}
+			bindOpt(i, fn+" "+par(x)+" "+lo+" "+hi)
+		case *ssa.IndexAddr:
+			x, idx := t.get(i.X, e), t.get(i.Index, e)
+			if x.k != kSlice || idx.k != kInt {
+				fail("element address in %s", i.X.Type().String())
+			}
+			if w, _, _ := intInfo(i.Index.Type()); w != 64 {
+				fail("index of type %s", i.Index.Type().String())
+			}
+			e.vals[i] = val{k: kElem, fields: []val{x, idx}}
 		case *ssa.FieldAddr:
 			p := t.get(i.X, e)
+			if p.k == kStruct && p.ref {
+				e.vals[i] = val{k: kRefF, fields: []val{p.fields[i.Field]}}
+				continue
+			}
 			if p.k != kPtr {
 				fail("field address of a non-local object")
 			}
@@ -900,7 +1140,11 @@ func (t *fnTrans) walk(b *ssa.BasicBlock, predIdx int, e *env, stop *ssa.BasicBl
 				e.mem[p.alloc] = setPath(e.mem[p.alloc], append([]int{p.fidx}, p.sub...), v)
 			}
 		case *ssa.UnOp:
-			t.bind(i, t.unop(i, e), e, &out)
+			if v := t.unop(i, e); v.opt {
+				bindOpt(i, v.e)
+			} else {
+				t.bind(i, v, e, &out)
+			}
 		case *ssa.BinOp:
 			t.bind(i, t.binop(i, e), e, &out)
 		case *ssa.Field:
@@ -931,7 +1175,11 @@ func (t *fnTrans) walk(b *ssa.BasicBlock, predIdx int, e *env, stop *ssa.BasicBl
 		case *ssa.Convert:
 			t.bind(i, t.convert(i, e), e, &out)
 		case *ssa.Call:
-			t.bind(i, t.call(i, e), e, &out)
+			if v := t.call(i, e); v.opt {
+				bindOpt(i, v.e)
+			} else {
+				t.bind(i, v, e, &out)
+			}
 		case *ssa.If:
 			c := t.get(i.Cond, e)
 			if c.k != kBool {
@@ -951,7 +1199,7 @@ func (t *fnTrans) walk(b *ssa.BasicBlock, predIdx int, e *env, stop *ssa.BasicBl
 			if t.paths > maxPaths {
 				fail("too many paths (more than %d branches)", maxPaths)
 			}
-			join := t.ipdom[b]
+			join := t.rg.ipdom[b]
 			if join == stop {
 				e2 := e.clone()
 				flush()
@@ -962,14 +1210,21 @@ func (t *fnTrans) walk(b *ssa.BasicBlock, predIdx int, e *env, stop *ssa.BasicBl
 			// whose value is the tuple of everything that differs at the join (its phis, updated fields of locals)
 			sub := &node{cond: cond, th: t.edge(b, 0, e.clone(), join), el: t.edge(b, 1, e.clone(), join)}
 			e2, name := t.merge(sub, join, e)
+			mon := name != "" && monadicNode(sub)
 			rest := t.walk(join, -1, e2, stop, true)
-			if name != "" && len(rest.lines) == 0 && rest.th == nil && rest.arrive == nil && rest.ret == name {
+			if name != "" && !mon && len(rest.lines) == 0 && rest.th == nil && rest.arrive == nil && rest.ret == name {
 				// `let x := <branch>; x` is just the branch
 				flush()
+				if rest.isRet {
+					setLeavesRet(sub)
+				}
 				n.cond, n.th, n.el = sub.cond, sub.th, sub.el
 				return n
 			}
-			if name != "" {
+			if mon {
+				t.monadic = true
+				fmt.Fprintf(&out, "(\n%s).bind fun %s =>\n", render(sub, 1), name)
+			} else if name != "" {
 				fmt.Fprintf(&out, "let %s :=\n%s\n", name, render(sub, 1))
 			}
 			return finish(rest)
@@ -986,17 +1241,24 @@ func (t *fnTrans) walk(b *ssa.BasicBlock, predIdx int, e *env, stop *ssa.BasicBl
 				case kStruct:
 					w, _ := whole(v)
 					parts = append(parts, w)
-				case kInt, kBool:
+				case kInt, kBool, kStr, kSlice:
 					parts = append(parts, v.e)
 				default:
 					fail("result of an unsupported kind")
 				}
 			}
 			flush()
-			if len(parts) == 1 {
+			if len(parts) == 0 {
+				n.ret = "()"
+			} else if len(parts) == 1 {
 				n.ret = parts[0]
 			} else {
 				n.ret = "(" + strings.Join(parts, ", ") + ")"
+			}
+			if t.rg.lp != nil {
+				n.ret = t.retWrap(n.ret)
+			} else {
+				n.isRet = true
 			}
 			return n
 		case *ssa.Panic:
@@ -1041,6 +1303,9 @@ func (t *fnTrans) edge(b *ssa.BasicBlock, k int, e *env, stop *ssa.BasicBlock) *
 			}
 			occ--
 		}
+	}
+	if cur.ext {
+		return t.enter(s, phiSrc{pred: idx}, e, stop)
 	}
 	if s == stop {
 		return &node{arrive: &arrival{e: e, pred: idx}}
@@ -1125,8 +1390,8 @@ func (t *fnTrans) merge(sub *node, join *ssa.BasicBlock, envB *env) (*env, strin
 		var xs []string
 		var first val
 		for k, l := range ls {
-			v := t.get(phi.Edges[l.pred], l.e)
-			if v.k == kPtr || v.k == kTuple {
+			v := t.phiOf(phi, phiSrc{pred: l.pred, over: l.over}, l.e)
+			if v.k == kPtr || v.k == kTuple || v.k == kElem {
 				fail("a pointer or tuple flows through a join")
 			}
 			if k == 0 {
@@ -1177,7 +1442,8 @@ func (t *fnTrans) merge(sub *node, join *ssa.BasicBlock, envB *env) (*env, strin
 			comps = append(comps, comp{name: a.Name() + "_v", typ: elem, exprs: xs, alloc: a, fidx: -1})
 		}
 	}
-	if len(comps) == 0 {
+	mon := monadicNode(sub)
+	if len(comps) == 0 && !mon {
 		return e2, ""
 	}
 	// the leaves of `sub`, in order, yield the tuple of the components
@@ -1196,14 +1462,25 @@ func (t *fnTrans) merge(sub *node, join *ssa.BasicBlock, envB *env) (*env, strin
 			} else {
 				n.ret = "(" + strings.Join(parts, ", ") + ")"
 			}
+			if mon {
+				n.ret = "some " + parenIf(n.ret)
+			}
 			return
+		}
+		if n.th == nil {
+			if n.ret == "none" {
+				return
+			}
+			fail("a branch that does not reach its join (a loop that only returns inside a joined region)")
 		}
 		fill(n.th)
 		fill(n.el)
 	}
 	fill(sub)
-	name := comps[0].name
-	if len(comps) > 1 {
+	name := "_"
+	if len(comps) == 1 {
+		name = comps[0].name
+	} else if len(comps) > 1 {
 		name = fmt.Sprintf("j%d", join.Index)
 	}
 	for ci, c := range comps {
@@ -1225,6 +1502,46 @@ func (t *fnTrans) merge(sub *node, join *ssa.BasicBlock, envB *env) (*env, strin
 		}
 	}
 	return e2, name
+}
+
+// monadicNode: some line of the tree binds an `Option`
+func monadicNode(n *node) bool {
+	for _, l := range n.lines {
+		for _, ll := range strings.Split(l, "\n") {
+			if strings.HasSuffix(ll, "=>") {
+				return true
+			}
+		}
+	}
+	if n.th != nil {
+		return monadicNode(n.th) || monadicNode(n.el)
+	}
+	return n.ret == "none"
+}
+
+func setLeavesRet(n *node) {
+	if n.th != nil {
+		setLeavesRet(n.th)
+		setLeavesRet(n.el)
+		return
+	}
+	n.isRet = true
+}
+
+// noReturn: a panic, or a call of a function that ends the process
+func noReturn(ins ssa.Instruction) bool {
+	switch i := ins.(type) {
+	case *ssa.Panic:
+		return true
+	case *ssa.Call:
+		if c := i.Call.StaticCallee(); c != nil && c.Pkg != nil {
+			switch c.Pkg.Pkg.Path() + "." + c.Name() {
+			case "github.com/richardwilkes/toolbox/atexit.Exit", "os.Exit", "github.com/richardwilkes/toolbox/fatal.IfErr":
+				return c.Name() != "IfErr"
+			}
+		}
+	}
+	return false
 }
 
 // render prints a node; multi-line `let` values are already indented relative to their own first line
@@ -1343,6 +1660,12 @@ func (t *fnTrans) unop(i *ssa.UnOp, e *env) val {
 			return t.g.globalValue(gl)
 		}
 		p := t.get(i.X, e)
+		if p.k == kRefF {
+			return p.fields[0]
+		}
+		if p.k == kElem {
+			return val{k: kInt, e: "Gen.wIdx " + par(p.fields[0]) + " " + par(p.fields[1]), opt: true}
+		}
 		if p.k != kPtr {
 			fail("load through a non-local pointer")
 		}
@@ -1466,6 +1789,21 @@ func (t *fnTrans) binop(i *ssa.BinOp, e *env) val {
 				prop = num(x, signed) + " > " + num(y, signed)
 			case token.GEQ:
 				prop = num(x, signed) + " ≥ " + num(y, signed)
+			}
+		case x.k == kStr && y.k == kStr:
+			switch i.Op {
+			case token.EQL:
+				prop = par(x) + " = " + par(y)
+			case token.NEQ:
+				prop = par(x) + " ≠ " + par(y)
+			case token.LSS:
+				prop = par(x) + " < " + par(y)
+			case token.GTR:
+				prop = par(y) + " < " + par(x)
+			case token.LEQ:
+				prop = "¬(" + par(y) + " < " + par(x) + ")"
+			case token.GEQ:
+				prop = "¬(" + par(x) + " < " + par(y) + ")"
 			}
 		case x.k == kBool && y.k == kBool && (i.Op == token.EQL || i.Op == token.NEQ):
 			op := " = "
@@ -1607,6 +1945,24 @@ func (t *fnTrans) call(i *ssa.Call, e *env) val {
 				}
 				return acc
 			}
+			if (b.Name() == "max" || b.Name() == "min") && len(i.Call.Args) == 2 && cur.ext {
+				if _, signed, ok := intInfo(i.Type()); ok {
+					x, y := t.get(i.Call.Args[0], e), t.get(i.Call.Args[1], e)
+					cond := num(x, signed) + " < " + num(y, signed)
+					if b.Name() == "max" {
+						return val{k: kInt, e: "if " + cond + " then " + par(y) + " else " + par(x)}
+					}
+					return val{k: kInt, e: "if " + cond + " then " + par(x) + " else " + par(y)}
+				}
+			}
+			if b.Name() == "len" && len(i.Call.Args) == 1 && cur.ext {
+				switch v := t.get(i.Call.Args[0], e); v.k {
+				case kStr:
+					return val{k: kInt, e: "Gen.strLen " + par(v)}
+				case kSlice:
+					return val{k: kInt, e: "Gen.wLen " + par(v)}
+				}
+			}
 			fail("builtin %s", b.Name())
 		}
 		fail("dynamic call")
@@ -1615,7 +1971,7 @@ func (t *fnTrans) call(i *ssa.Call, e *env) val {
 	for _, a := range i.Call.Args {
 		v := t.get(a, e)
 		switch v.k {
-		case kInt, kBool:
+		case kInt, kBool, kStr, kSlice:
 			args = append(args, par(v))
 		case kStruct:
 			w, atom := whole(v)
@@ -1629,7 +1985,16 @@ func (t *fnTrans) call(i *ssa.Call, e *env) val {
 	}
 	var fn string
 	natResult := false
+	optResult := false
 	switch {
+	case callee == t.f && cur.ext:
+		if t.rg.lp != nil {
+			fail("recursive call inside a loop")
+		}
+		t.selfRec, t.fueled, t.monadic = true, true, true
+		fn = t.g.lname[callee]
+		args = append(args, "fuel")
+		optResult = true
 	case callee.Pkg != nil && callee.Pkg.Pkg.Path() == "math/bits":
 		b, ok := bitsMap[callee.Name()]
 		if !pkgBits(t.f.Pkg) {
@@ -1686,6 +2051,15 @@ func (t *fnTrans) call(i *ssa.Call, e *env) val {
 			fn = t.g.lname[callee]
 		}
 		args = append(dargs, args...)
+		t.g.callees[t.f] = append(t.g.callees[t.f], callee)
+		if t.g.fueledFn[callee] {
+			args = append(args, "fuel")
+			t.fueled = true
+		}
+		if t.g.monadicFn[callee] {
+			optResult = true
+			t.monadic = true
+		}
 	default:
 		name := callee.Name()
 		if callee.Pkg != nil {
@@ -1704,9 +2078,19 @@ func (t *fnTrans) call(i *ssa.Call, e *env) val {
 		w, _, _ := intInfo(rt)
 		return val{k: kInt, e: fmt.Sprintf("BitVec.ofNat %d (%s)", w, expr)}
 	}
+	if optResult {
+		if tup, isT := rt.(*types.Tuple); !isT || tup.Len() > 0 {
+			leanType(rt)
+		}
+		return val{e: expr, opt: true}
+	}
 	switch {
 	case isBool(rt):
 		return val{k: kBool, e: expr}
+	case isStr(rt):
+		return val{k: kStr, e: expr}
+	case isWords(rt):
+		return val{k: kSlice, e: expr}
 	default:
 		if isNumTP(rt) {
 			return val{k: kInt, num: true, e: expr}
@@ -1901,6 +2285,10 @@ func wrap(words []string, indent string, width int) string {
 }
 
 func main() {
+	if len(os.Args) > 3 && os.Args[1] == "-dump" {
+		dumpMain(os.Args[2:])
+		return
+	}
 	if len(os.Args) < 3 {
 		fmt.Fprintln(os.Stderr, "usage: ssagen <repo dir> <out.lean> [num|f64]")
 		os.Exit(2)
@@ -1932,7 +2320,7 @@ func main() {
 		state: map[*ssa.Function]int{}, reason: map[*ssa.Function]string{}, text: map[*ssa.Function]string{},
 		globals: map[*ssa.Global]*global{}, gbad: map[*ssa.Global]string{}, pkgs: map[*ssa.Package]*packages.Package{},
 		partial: map[*ssa.Function]string{}, aux: map[*ssa.Package]bool{}, modelTaken: map[string]string{},
-		need: map[*ssa.Function]map[string]bool{}}
+		need: map[*ssa.Function]map[string]bool{}, callees: map[*ssa.Function][]*ssa.Function{}, fueledFn: map[*ssa.Function]bool{}, monadicFn: map[*ssa.Function]bool{}}
 	nOwn := 0
 	for k, path := range append(append([]string{}, cur.pkgs...), cur.aux...) {
 		tp := byPath[path]
@@ -1984,7 +2372,15 @@ func main() {
 	sb.WriteString("    Encoding: every Go integer of width w is a `BitVec w` (int, uint, int64, uint64: `BitVec 64`; `+ - *` wrap;\n")
 	sb.WriteString("    signed comparisons go through `toInt`, unsigned ones through `toNat`; `x << n`, `x >> n` take the count as a\n")
 	sb.WriteString("    natural number, so a count ≥ 64 gives 0 as in Go; a signed `>>` is `BitVec.sshiftRight`); `bool` is `Bool`;\n")
-	if cur.name == "num" {
+	if cur.ext {
+		sb.WriteString("    EXTENDED FRAGMENT (gossa/loops.go, Lemmas/GenLoop.lean): a Go `string` is `Gen.Str` (its bytes), a `[]uint64` is\n")
+		sb.WriteString("    `Gen.Words`; indexing and slicing carry Go's bounds checks (`none` where Go panics); a method receiver that\n")
+		sb.WriteString("    is only read is passed as the record; a block that panics or ends the process (`atexit.Exit`) is `none`; a\n")
+		sb.WriteString("    natural loop is a function `<F>_loop<k>` by structural recursion on `fuel` (live-in values, fuel, the phi\n")
+		sb.WriteString("    nodes of the header; `none` when the fuel runs out), a function with loops takes `fuel` as its last\n")
+		sb.WriteString("    parameter and yields an `Option`; a recursive call consumes one unit of fuel.\n")
+	}
+	if cur.name == "num" || cur.name == "numloops" {
 		sb.WriteString("    Uint128 / Int128 are the records `U128` / `I128` of the model; `math/bits` calls are the contract\n")
 		sb.WriteString("    definitions of Model/U128.lean (`add64 sub64 mul64 len64 clz ctz popcount`, the `int` results embedded\n")
 		sb.WriteString("    with `BitVec.ofNat 64`); package variables with a constant initialiser that the package never writes are\n")
@@ -2094,12 +2490,46 @@ func main() {
 		sb.WriteString(g.globals[gl].def)
 		sb.WriteString("\n")
 	}
+	// tied / untied
+	untiedPath := strings.TrimSuffix(outPath, ".lean") + "_untied.lean"
+	inMain := map[*ssa.Function]bool{}
+	split := false
+	if cur.props != "" {
+		if txt, err := os.ReadFile(filepath.Join(filepath.Dir(filepath.Dir(outPath)), cur.props)); err == nil {
+			split = true
+			guarded := map[string]bool{}
+			for _, m := range regexp.MustCompile(`(?m)^when_translated\s+Gen\.(\S+)\s+in\s*$`).FindAllStringSubmatch(string(txt), -1) {
+				guarded[m[1]] = true
+			}
+			var mark func(f *ssa.Function)
+			mark = func(f *ssa.Function) {
+				if inMain[f] {
+					return
+				}
+				inMain[f] = true
+				for _, c := range g.callees[f] {
+					mark(c)
+				}
+			}
+			for _, f := range g.order {
+				if guarded[g.lname[f]] {
+					mark(f)
+				}
+			}
+		}
+	}
+	var ub strings.Builder
+	untied := []string{}
 	for _, f := range g.order {
 		if g.aux[f.Pkg] {
 			continue // defined by the generated file of its own target, which is imported
 		}
-		pos := prog.Fset.Position(f.Pos())
-		fmt.Fprintf(&sb, "/-- `%s` (%s) -/\n", g.names[f], filepath.Base(pos.Filename))
+		if split && !inMain[f] {
+			ub.WriteString(g.text[f])
+			ub.WriteString("\n")
+			untied = append(untied, g.names[f])
+			continue
+		}
 		sb.WriteString(g.text[f])
 		sb.WriteString("\n")
 	}
@@ -2108,12 +2538,29 @@ func main() {
 		fmt.Fprintln(os.Stderr, err)
 		os.Exit(1)
 	}
+	if cur.props != "" {
+		os.Remove(untiedPath)
+	}
+	if len(untied) > 0 {
+		mod := "Generated." + strings.TrimSuffix(filepath.Base(outPath), ".lean")
+		text := "import " + mod + "\n/-! GENERATED by /verif/gossa (ssagen) — do not edit.  Functions of " + cur.what + " that are translated but have no tie\n" +
+			"    theorem in " + cur.props + " yet (no property depends on this file; the definitions can be run):\n" +
+			wrap(untied, "      ", 116) + " -/\n\nnamespace Gen\n\n" + ub.String() + "end Gen\n"
+		if err := os.WriteFile(untiedPath, []byte(text), 0o644); err != nil {
+			fmt.Fprintln(os.Stderr, err)
+			os.Exit(1)
+		}
+	}
 	var lean []string
 	for _, f := range g.fns {
 		if g.state[f] == 2 {
 			lean = append(lean, g.lname[f])
 		}
 	}
-	js, _ := json.Marshal(map[string]any{"translated": translated, "skipped": skipped, "partial": partial, "lean": lean})
+	res := map[string]any{"translated": translated, "skipped": skipped, "partial": partial, "lean": lean}
+	if cur.props != "" {
+		res["untied"] = untied
+	}
+	js, _ := json.Marshal(res)
 	fmt.Println(string(js))
 }
